@@ -367,8 +367,65 @@ def judge_mute(case, obs):
 _LAST = {}
 
 
+def case_second_connect(case):
+    """case: {"family": "second-connect", "driver": "luba"|"sci", "cut": k, "verbose": bool}
+    The gateway falls silent k bytes into its first reply (cable loose, gateway rebooting): connect() gives up.  The
+    gateway talks again, the program calls connect() once more on the same driver object: that connection comes up
+    and the driver works (nothing of the half-received packet lingers)."""
+    from harness.gateways_serial import SerialSim
+    from harness import verbose
+    from dali.gear import general as g
+    drv = case["driver"]
+    verbose.set(bool(case.get("verbose")))
+    sim = SerialSim(drv)
+    out = []
+    try:
+        sim.gw.mute_after_bytes = case["cut"]
+        t1 = sim.loop.create_task(sim.driver.connect())
+        sim.tasks.append(t1)
+        sim.drain(max_rounds=4000, max_virtual=60.0)
+        if not t1.done():
+            return [("C17:%s:connect-hangs" % drv, "first connect() (reply cut after %d bytes) still pending after 60 s" % case["cut"])]
+        first = "raised %s" % type(t1.exception()).__name__ if t1.exception() is not None else "returned"
+        # the gateway is back
+        sim.gw.mute = sim.gw.mute_answers = False
+        sim.gw.cut = False
+        sim.gw.mute_after_bytes = None
+        sim.gw.pending[:] = []
+        t2 = sim.loop.create_task(sim.driver.connect())
+        sim.tasks.append(t2)
+        sim.drain(max_rounds=4000, max_virtual=60.0)
+        where = "%s: first connect() %s (the gateway's first reply was cut after %d bytes), gateway back, second connect()" % (drv, first, case["cut"])
+        if not t2.done():
+            return [("C17:%s:second-connect-hangs" % drv, "%s still pending after 60 s" % where)]
+        if t2.exception() is not None:
+            e = t2.exception()
+            return [("C17:%s:second-connect-fails:%s" % (drv, type(e).__name__), "%s raised %r (in %s)" % (where, e, library_frame(e.__traceback__)))]
+        if not sim.driver.is_connected:
+            return [("C17:%s:second-connect-not-connected" % drv, "%s returned but is_connected is False" % where)]
+        q = g.QueryActualLevel(5)
+        sim.expect(q, ("value", 0x6B))
+        t3 = sim.loop.create_task(sim.driver.send(q))
+        sim.tasks.append(t3)
+        sim.drain(max_rounds=4000, max_virtual=30.0)
+        if not t3.done():
+            out.append(("C17:%s:caller-hangs" % drv, "%s: a query sent afterwards never completes" % where))
+        elif t3.exception() is not None:
+            out.append(("C17:%s:send-raised:%s" % (drv, type(t3.exception()).__name__), "%s: a query sent afterwards raised %r" % (where, t3.exception())))
+        else:
+            got = sc.describe_response(t3.result())
+            if got.get("raw") != ["value", 0x6B]:
+                out.append(("C17:%s:wrong-data-after-fault" % drv, "%s: a query answered 0x6b afterwards returned %r" % (where, got)))
+    finally:
+        sim.close()
+        verbose.set(False)
+    return out
+
+
 def run_case(case):
     fam = case["family"]
+    if fam == "second-connect":
+        return case_second_connect(case)
 
     def inspect(sim, obs):
         if case["driver"] in sc.HID:
@@ -648,6 +705,17 @@ def reducer(case):
 def _shard(arg):
     fam, driver, seed, n = arg
     res = Result()
+    if fam == "second-connect":
+        for cut in range(1, 26):
+            for vb in (False, True):
+                case = {"family": "second-connect", "driver": driver, "cut": cut, "verbose": vb}
+                res.count()
+                res.nontrivial()
+                res.label("second-connect:" + driver)
+                for sig, msg in run_case(case):
+                    res.violation(sig, case, msg)
+        res.sample(case, cls="second connect after a failed first")
+        return res
     strat = {"loss": loss_case, "cancel": cancel_case, "mute": mute_case}[fam](driver)
     hyp.search(strat, run_case, res, n, seed, ID, nontrivial=nontrivial, classify=features, shrink=False, reducer=reducer)
     return res
@@ -663,4 +731,6 @@ def run(ctx):
         shards.append(("cancel", drv, s + 20 + k, 10 if q else 200))
     for k in range(4):
         shards.append(("mute", ["luba", "sci"][k % 2], s + 40 + k, 400 if q else 15000))
+    shards.append(("second-connect", "luba", s, 1))
+    shards.append(("second-connect", "sci", s, 1))
     ctx.pmap(_shard, shards)
